@@ -280,7 +280,13 @@ class HpcSubmitter:
         if highest_index == len(available_jobs) - 1:
             not_checked = []
         else:
-            not_checked = available_jobs[highest_index + 1 :]
+            # With multiple rounds the index can move back below jobs that were added to this
+            # batch in an earlier round. Never hand those to the next batch.
+            not_checked = [
+                x
+                for x in available_jobs[highest_index + 1 :]
+                if x.name not in submitted_jobs_by_name
+            ]
         return batch, not_checked
 
     def _submit_batch(self, queue, submission_group, batch):
